@@ -128,8 +128,9 @@ def fs_case(ck, nfiles, sd, rd, nd, ops, coq_in):
     coq_in.append(("(%d, %d, %d, %d, %d, %s, %s)" % (sd, rd, nd, init[0], init[1], zl(files), zl([coq_fs_op(o) for o in ops])), out))
 
 
-def fix_timeline(ck, b, name, fd):
-    """a fix returns software to good health after exactly max(fd, 1) ticks; a compromise during the fix is not undone."""
+def fix_timeline(ck, b, name, fd, restart=False):
+    """a fix returns software to good health after exactly max(fd, 1) ticks (also when the service is restarted while the fix
+    runs); a compromise during the fix is not undone."""
     s = b.sw(name)
     if s.operating_state.name != "RUNNING":
         if b.is_service(name):
@@ -138,16 +139,25 @@ def fix_timeline(ck, b, name, fd):
     s.config.fixing_duration = fd
     b.req(name, "compromise")
     r = b.req(name, "fix")
+    if restart:
+        s.restart_duration = fd + 2
+        if b.req(name, "restart").status != "success":
+            return
     got = [s.health_state_actual.name]
     n = max(fd, 1)
     for _ in range(n + 1):
         b.tick()
         got.append(s.health_state_actual.name)
     want = ["FIXING"] * n + ["GOOD"] * 2
-    ck.case(canon=("fix", name, fd), nontrivial=True)
+    ck.case(canon=("fix", name, fd, restart), nontrivial=True)
     if r.status != "success" or got != want:
-        ck.violation("fix-time:%s" % name, "%s fixing_duration=%d: fix answered %s, observed %s, configured timing gives %s" % (name, fd, r.status, got, want),
-                     {"software": name, "fixing_duration": fd, "observed": got, "expected": want})
+        ck.violation("fix-time:%s%s" % (name, ":while-restarting" if restart else ""), "%s fixing_duration=%d%s: fix answered %s, observed %s, configured timing gives %s"
+                     % (name, fd, " (service restarted right after the fix request)" if restart else "", r.status, got, want),
+                     {"software": name, "fixing_duration": fd, "restart_after_fix": restart, "observed": got, "expected": want})
+    if restart:
+        for _ in range(4):
+            b.tick()
+        return
     if fd >= 2:
         b.req(name, "compromise")
         b.req(name, "fix")
@@ -192,6 +202,8 @@ def run(ck):
         b = SwBench()
         for name in b.services + b.apps:
             fix_timeline(ck, b, name, fd)
+        for name in b.services:
+            fix_timeline(ck, b, name, fd, restart=True)
     sw_in = []
     b0 = SwBench()
     for name in b0.services + b0.apps:
@@ -200,7 +212,7 @@ def run(ck):
             d, fd = rng.choice([0, 1, 2, 3]), rng.choice([0, 1, 2, 3])
             bb.set_durations(name, d, fd)
             init = bb.observe(name)
-            ops = gen_ops(rng, bb.is_service(name), rng.randint(8, 24))
+            ops = gen_ops(rng, bb.is_service(name), rng.randint(8, 24), name)
             out = []
             for op in ops:
                 r = bb.apply(name, op)
